@@ -15,7 +15,7 @@ from ..core import rule
 from ..model import AnalysisError
 from ..norm import Norm, expected
 from ..poly import Poly
-from ..paths import walk_no_nested, must_on_all_paths
+from ..paths import walk_no_nested, must_on_all_paths, canon_guard
 from ..effects import is_call_to, writes_in
 from ..loops import elementwise_text
 from .c13 import _is_invalidate
@@ -37,7 +37,7 @@ def r12_1(ctx):
         f = P.own_method("Stage", name)
         sc = ctx.scope(f)
         own = [c for c in walk_no_nested(f.node) if is_call_to(c, meth, "self._method")]
-        ok = len(own) == 1 and all(ast.unparse(t) == "self._method is not None" and p for t, p in sc.guards(own[0])) and not sc.enclosing_loops(own[0])
+        ok = len(own) == 1 and all(canon_guard(t, p) == canon_guard("self._method is not None", True) for t, p in sc.guards(own[0])) and not sc.enclosing_loops(own[0])
         ctx.check(ok, "Stage.%s invokes the stage's own method" % name, detail="stage skipped", expected="self._method.%s(...)" % meth, found=str(len(own)), fi=f)
         if own:
             passes_self = any(ast.unparse(a) == "self" for a in own[0].args)
@@ -145,7 +145,7 @@ def r12_2(ctx):
     for a, kw in (("_T", "T"), ("_t0", "t0")):
         w = [x for x in ws.get(a, []) if x.kind == "assign"]
         sc = ctx.scope(f)
-        ok = len(w) == 1 and [(ast.unparse(t), p) for t, p in sc.guards(w[0].node)] == [("'%s' not in kwargs" % kw, True)]
+        ok = len(w) == 1 and [canon_guard(t, p) for t, p in sc.guards(w[0].node)] == [canon_guard("'%s' not in kwargs" % kw, True)]
         ctx.check(ok, "clone keeps the template's %s unless overridden" % kw, detail="override of %s ignored or template value lost" % kw, expected="if '%s' not in kwargs: ret.%s = copy(self.%s)" % (kw, a, a), found="", fi=f)
     # sub-stages of a template: cloned recursively, or the template is rejected -- never dropped silently
     handles_stages = "_stages" in ws or any(isinstance(n_, (ast.If, ast.Assert)) and "self._stages" in ast.unparse(n_.test) and (isinstance(n_, ast.Assert) or any(isinstance(x, ast.Raise) for x in n_.body))
